@@ -251,7 +251,8 @@ class Campaign:
             "wall_s": round(wall, 3),
             "violations": len(violations),
         }
-        edir = os.path.join(env.VERIF_ROOT, "evidence" if self.write_evidence else os.path.join("out", "replay-evidence"))
+        real = self.write_evidence and os.path.realpath(env.REPO) == "/repo"   # mutant / replay runs never touch evidence/
+        edir = os.path.join(env.VERIF_ROOT, "evidence" if real else os.path.join("out", "scratch-evidence"))
         os.makedirs(edir, exist_ok=True)
         tmp = os.path.join(edir, ".%s.%d.tmp" % (self.pid, os.getpid()))
         with open(tmp, "w") as fp:
